@@ -501,6 +501,9 @@ def sx_meth(recv, name, /, *a, **k):
         if _anysym(a) or any(isinstance(x, tuple) and _anysym(x) for x in a):
             if name == 'format': return _format(recv, *a, **k)
             return getattr(SymStr(chars_of(recv)), name)(*a, **k)
+    elif type(recv) is dict and not a and name in ('keys', 'items') and id(recv) in SYMKEY_DICTS:
+        # hand the symbolic keys out as values again (a list: every use in the analysed code iterates, sorts or tests membership)
+        return [_kv(y) for y in recv] if name == 'keys' else [(_kv(y), v) for y, v in recv.items()]
     elif type(recv) is dict and a and name in ('get', 'pop', '__contains__', '__getitem__', 'setdefault') and _needs_scan(recv, a[0]):
         y = _scan(recv, a[0])
         if y is not _MISSING: return getattr(recv, name)(y, *a[1:])
